@@ -320,6 +320,45 @@ def run(ctx):
             g.path.startswith("<minijinja::value::Value as core::cmp::") or "minijinja::value::Value as core::cmp::" in g.path)]
         ctx.floor("C07.V5 equality / ordering functions of Value" + tag, len(eqfns), 3)
         check_unknown_lengths(ctx, prog, eqfns, tag)
+        # ---- V7: membership agrees with equality.  `x in seq` is decided by the function the `In` instruction calls;
+        # its searches over the members of a sequence / iterable (any / find / position / contains closures) must
+        # return the result of `Value == Value` between the member and the needle - a specialised comparison
+        # (`as_str() == Some(needle)`, a kind test, a hash probe) makes `in` disagree with `==` for the pairs the
+        # specialisation conflates (a string and bytes with the same content).
+        ev_ = prog.fns.get("minijinja::vm::Executor::eval_impl")
+        memb = set()
+        if ev_ is not None:
+            sw_ = arms.enum_switches(prog, ev_, "minijinja::compiler::instructions::Instruction")
+            regs_ = arms.arm_regions(prog, ev_, sw_[0][0], "minijinja::compiler::instructions::Instruction") if sw_ else {}
+            for c in arms.calls_in(ev_, regs_.get("In", set())):
+                if c.name.startswith("minijinja::value::ops::"):
+                    memb.add(c.name)
+        ctx.floor("C07.V7 membership functions called by the In instruction" + tag, len(memb), 1)
+        SEARCH = ("::any", "::find", "::position", "::all", "::find_map", "::rposition")
+        n7 = 0
+        for mname in sorted(memb):
+            mf = prog.fn(mname)
+            for host in [mf] + prog.closures_of(mname):
+                for c in host.calls():
+                    if not (c.name.startswith("core::iter::traits::iterator::Iterator") and c.name.endswith(SEARCH)):
+                        continue
+                    for a in c.args[1:]:
+                        for o in flow.origins(host, a):
+                            if o.kind != "agg" or not o.rv.get("closure"):
+                                continue
+                            cl = prog.fns.get(norm_path(o.rv["closure"]))
+                            if cl is None:
+                                continue
+                            n7 += 1
+                            rets = flow.origins(cl, 0)
+                            ok = bool(rets) and all(
+                                r.kind == "call" and r.call.path in ("core::cmp::PartialEq::eq",) and
+                                (r.call.self_ty or {}).get("adt") == "minijinja::value::Value" for r in rets)
+                            ctx.ob("C07.V7.membership-is-decided-by-value-equality", "%s%s|%s" % (tag, mname.split("::")[-1], c.name.split("::")[-1]),
+                                   ok, "the search over the container's members decides by %s, not by `Value == Value`: `x in seq` "
+                                   "then disagrees with `==` on the members (e.g. a string and bytes with the same content)"
+                                   % [repr(r) for r in rets], host.where(c.bb))
+        ctx.floor("C07.V7 member searches" + tag, n7, 1)
         # ---- V4: descending order comes from the comparator, never from reversing a sorted sequence.  A stable sort
         # followed by `reverse()` also reverses the run of items that compare equal, so `sort(reverse=true)` would no
         # longer be a stable descending sort (and would disagree with the attribute form on ties).
